@@ -61,7 +61,7 @@ theorem pot_step (s : State) (m : Nat) (a : Act) (g : Good s m) (hlt : s.height 
       obtain ⟨x, hx1, hx2, hx3⟩ := hfill (s.height + 1) (by omega) (by omega)
       right
       simp only [apply, runStep, hpc, lockSection, hhe, hx1, pot, cost, accepts, hx2, hx3, beq_self_eq_true,
-        Bool.and_self, if_true]
+        Bool.and_self, if_true, gt_iff_lt, Nat.lt_irrefl, if_false]
       omega
     | holding b p =>
       simp only [apply, runStep, hpc, addItem]
